@@ -129,6 +129,8 @@ def rule_X1_dot(F, R):
     t = lib.ithir.get(G + 'edges_recursive')
     if t is None:
         R.violation(G + 'edges_recursive / X1 / anchor', 'UNDECIDABLE', 'edges_recursive not found'); return
+    import facts as _facts
+    t = dict(t); t['body'] = _facts.unroll_array_loops(t['body'])
     cb = choice_bindings(t)
     n = 0
     for e in walk(t['body']):
@@ -206,6 +208,15 @@ def eval_pred(e, env):
             a, b = eval_val(e['args'][0], env), eval_val(e['args'][1], env)
             if a[0] != b[0]: raise PredUndec('comparison of different kinds')
             return (a == b) if d.endswith('eq') else (a != b)
+        if d in ('std::ops::Fn::call', 'std::ops::FnMut::call_mut', 'std::ops::FnOnce::call_once') and len(e['args']) == 2:
+            # a call of a local closure, `let shown = |child: &BDD<S>| ..; if shown(l.as_ref()) ..`: its body under its arguments
+            ct = env.get('#closures', {}).get(root_var(e['args'][0]))
+            tup = strip(e['args'][1])
+            if ct is not None and tup['k'] == 'Tuple' and len(tup['fields']) == len(ct['params']) - 1:
+                env2 = dict(env)
+                for prm, a_ in zip(ct['params'][1:], tup['fields']):
+                    if not pat_matches(prm['pat'], eval_val(a_, env), env2): raise PredUndec('closure parameter pattern')
+                return eval_pred(ct['body'], env2)
         cn = callee_name(e) or ''
         if cn in ('rsbdd::bdd::BDD::is_true', 'rsbdd::bdd::BDD::is_false', 'rsbdd::bdd::BDD::is_const', 'rsbdd::bdd::BDD::is_choice'):
             a = eval_val(e['args'][0], env)
@@ -385,7 +396,16 @@ def _x2_dot(F, R, lib, FILTERS):
                     R.violation(G + 'nodes_recursive / X2 / filter=%s leaf=%s' % (f, leaf), 'X2', 'with filter %s the %s leaf is %s; it must be %s' % (f, leaf, 'declared' if got else 'omitted', 'declared' if want else 'omitted'))
     t = lib.ithir.get(G + 'edges_recursive')
     if t:
+        import facts as _facts
+        t = dict(t); t['body'] = _facts.unroll_array_loops(t['body'])      # `for (flag, child) in [(true, l), (false, r)] {..}` is its two copies
         cb = choice_bindings(t)
+        closures = {}
+        for b_ in walk(t['body']):
+            if b_['k'] == 'Block':
+                for st in b_['stmts']:
+                    if st['k'] == 'Let' and st.get('init') is not None and strip(st['init'])['k'] == 'Closure' and unwrap_pat(st['pat'])['k'] == 'Binding':
+                        ct_ = lib.ithir.get(canon(strip(st['init'])['def']))
+                        if ct_ is not None: closures[unwrap_pat(st['pat'])['var']] = ct_
         n = 0
         for e in walk(t['body']):
             if e['k'] == 'If' and any(x['k'] == 'Call' and callee_name(x) == 'std::vec::Vec::push' for x in walk(e['then'])):
@@ -397,7 +417,7 @@ def _x2_dot(F, R, lib, FILTERS):
                 for f in FILTERS:
                     for child in ('True', 'False', 'Choice'):
                         try:
-                            got = eval_pred(e['cond'], {cv: ('bdd', child), 'self.filter': ('tte', f)})
+                            got = eval_pred(e['cond'], {cv: ('bdd', child), 'self.filter': ('tte', f), '#closures': closures})
                         except PredUndec as u:
                             R.violation(G + 'edges_recursive / X2 / UNDECIDABLE', 'UNDECIDABLE', 'edge predicate: %s' % u, e['cond'].get('loc')); got = None; break
                         want = True if child == 'Choice' else ((f == 'Any') or (f == child))
@@ -699,7 +719,20 @@ def rule_X4(F, R, clauses=('parse', 'order', 'model', 'retain', 'export', 'vars'
                 if s['k'] == 'Let' and unwrap_pat(s['pat']).get('var') == rv: init = s['init']
             chans = set()
             if init is not None:
-                for x in walk(init):
+                import facts as _facts
+                todo_ = [init]; seen_ = set()
+                allx = []
+                while todo_:
+                    ex_ = todo_.pop()
+                    for x in walk(ex_):
+                        allx.append(x)
+                        if x['k'] == 'Call':
+                            g_ = callee_name(x)
+                            if g_ and g_ in binc.ithir and g_ not in _facts.baseline_fns() and g_ not in seen_:
+                                seen_.add(g_); todo_.append(binc.ithir[g_]['body'])        # a new helper that opens the reader: look inside
+                        if x['k'] == 'Closure' and canon(x['def']) in binc.ithir and canon(x['def']) not in seen_:
+                            seen_.add(canon(x['def'])); todo_.append(binc.ithir[canon(x['def'])]['body'])
+                for x in allx:
                     if x['k'] == 'Call':
                         c = callee_name(x) or ''
                         if c == 'std::io::stdin': chans.add('stdin')
@@ -726,39 +759,131 @@ def rule_X4(F, R, clauses=('parse', 'order', 'model', 'retain', 'export', 'vars'
         if not ok: R.violation('rsbdd::main / X4 / ordering flow', 'X4', 'the ordering argument of the parser must be the variables of the -o file in order of first appearance, '
                                'args.ordering.map(p => extract_vars(tokenize(open(p), None))); found %s' % (flow.show(got) if got is not None else '%d parser call(s)' % len(found)))
     if 'model' in clauses or 'retain' in clauses:
-        printers = [i for k in ('table', 'vars', 'dot') for i in pos.get(k, [])]
+        # the value every printer shows, as a term over the evaluation result, whatever the layout (`if flag { r = f(r) }`,
+        # `let r = if flag { f(r) } else { r }`, a shadowing chain of variables):
+        #     ite(--model, model(X), X)   with   X = ite(retain-choices is Any, E, retain(E))   and   E = the evaluated formula
+        NAMES = {'rsbdd::bdd::BDDEnv::model': 'model', 'rsbdd::bdd::BDDEnv::retain_choice_bottom_up': 'retain', PF + 'eval': 'eval'}
+        PRINTERS = {'rsbdd::print_truth_table_recursive': 'table', 'rsbdd::print_true_vars_recursive': 'vars', 'rsbdd::bdd_io::BDDGraph::new': 'dot'}
+        shown = []
+        def condkey(c):
+            c = strip(c); neg = False
+            while c['k'] == 'Unary' and c['op'] == 'Not': c = strip(c['arg']); neg = not neg
+            if c['k'] == 'Call' and callee_name(c) == 'rsbdd::truth_table::TruthTableEntry::is_any' and strip(c['args'][0]).get('field_name') == 'retain_choices' \
+                    and root_var(strip(c['args'][0])['lhs']) is not None: return ('retain is any', neg)
+            if c['k'] == 'Field' and c.get('field_name') == 'model' and root_var(c['lhs']) is not None: return ('model', neg)
+            return ('other', pp(c))
+        def ite(ck, a, b_):
+            if a == b_: return a
+            if len(ck) == 2 and ck[1] is True: return ('ite', (ck[0], False), b_, a)
+            return ('ite', ck, a, b_)
+        def tv(e, val):
+            e = strip(e)
+            while e['k'] in ('Use', 'NeverToAny'): e = strip(e['source'])
+            if e['k'] in ('VarRef', 'UpvarRef'): return val.get(e['var'], ('var', e['var']))
+            if e['k'] == 'Call':
+                n = callee_name(e)
+                if n in NAMES:
+                    return ('eval',) if NAMES[n] == 'eval' else (NAMES[n], tv(e['args'][1], val))
+                if root_var(e) is not None and e['args']: return tv(e['args'][0], val)          # clone / as_ref / deref of a value
+            if e['k'] == 'If' and e.get('else') is not None:
+                return ite(condkey(e['cond']), tv(e['then'], val), tv(e['else'], val))
+            if e['k'] == 'Block':
+                v2 = dict(val); run(e['stmts'], v2)
+                return tv(e['expr'], v2) if e.get('expr') is not None else ('unit',)
+            return ('opaque', pp(e)[:60])
+        def merge(val, ck, v1, v2):
+            for k_ in set(v1) | set(v2):
+                if k_ in val or (k_ in v1 and k_ in v2):
+                    a_, b_ = v1.get(k_, val.get(k_)), v2.get(k_, val.get(k_))
+                    if a_ != val.get(k_) or b_ != val.get(k_): val[k_] = ite(ck, a_, b_)
+        def run_expr(e, val):
+            e0 = e
+            while e['k'] in ('Use', 'NeverToAny', 'Scope'): e = e['source'] if 'source' in e else e['value']
+            if e['k'] == 'Block':
+                run(e['stmts'], val)
+                if e.get('expr') is not None: run_expr(e['expr'], val)
+                return
+            if e['k'] == 'Assign' and strip(e['lhs'])['k'] in ('VarRef', 'UpvarRef'):
+                note(e['rhs'], val)
+                val[strip(e['lhs'])['var']] = tv(e['rhs'], val); return
+            if e['k'] == 'If':
+                note(e['cond'], val)
+                v1 = dict(val); run_expr(e['then'], v1)
+                v2 = dict(val)
+                if e.get('else') is not None: run_expr(e['else'], v2)
+                merge(val, condkey(e['cond']), v1, v2); return
+            if e['k'] == 'Match':
+                note(e['scrutinee'], val)
+                outs = []
+                def leaves(b_):
+                    while b_['k'] in ('Use', 'NeverToAny', 'Scope') or (b_['k'] == 'Block' and not b_['stmts'] and b_.get('expr') is not None):
+                        b_ = b_['expr'] if b_['k'] == 'Block' else (b_['source'] if 'source' in b_ else b_['value'])
+                    return b_['k'] in ('Break', 'Return', 'Continue')
+                for a_ in e['arms']:
+                    if leaves(a_['body']): continue              # `None => break`: nothing flows on from this arm
+                    v1 = dict(val); run_expr(a_['body'], v1); outs.append(v1)
+                for k_ in list(val):
+                    vs = [o[k_] for o in outs if o.get(k_) != val[k_]]
+                    if vs: val[k_] = vs[0] if all(x == vs[0] for x in vs) and len(vs) == len(outs) else ('phi', tuple(sorted(set(map(repr, vs + [val[k_]])))))
+                return
+            if e['k'] == 'Loop':
+                # a loop that runs at least once leaves what its body assigns (the benchmark loop; C12's R9 decides the `at least once`)
+                v1 = dict(val); run_expr(e['body'], v1)
+                for k_ in list(val):
+                    if v1.get(k_) != val[k_]: val[k_] = v1[k_]
+                return
+            note(e, val)
+        def note(e, val):
+            for x in walk(e):
+                if x['k'] == 'Call' and callee_name(x) in PRINTERS:
+                    shown.append((PRINTERS[callee_name(x)], x, tv(x['args'][0], val)))
+        def run(stmts_, val):
+            for s_ in stmts_:
+                if s_['k'] == 'Let':
+                    if s_.get('init') is None: continue
+                    note(s_['init'], val)
+                    v_ = unwrap_pat(s_['pat']).get('var')
+                    ini = s_['init']
+                    # `let graph = BDDGraph::new(&result, ..)` and friends are noted above; the binding itself only matters for BDD values
+                    if v_ is not None: val[v_] = tv(ini, val)
+                    if s_.get('else_block') is not None: pass
+                else:
+                    run_expr(s_['expr'], val)
+        b0 = body
+        while b0['k'] in ('Use', 'NeverToAny'): b0 = b0['source']
+        val0 = {}
+        if b0['k'] == 'Block':
+            run(b0['stmts'], val0)
+            if b0.get('expr') is not None: run_expr(b0['expr'], val0)
+        E = ('eval',)
+        X = ('ite', ('retain is any', False), E, ('retain', E))
+        def contains(t_, what):
+            return t_ == what or (isinstance(t_, tuple) and any(contains(y, what) for y in t_))
+        def showterm(t_):
+            if t_ == E: return 'E'
+            if t_[0] in ('model', 'retain'): return '%s(%s)' % (t_[0], showterm(t_[1]))
+            if t_[0] == 'ite': return 'if %s%s { %s } else { %s }' % ('' if not (len(t_[1]) == 2 and t_[1][1] is True) else 'not ', t_[1][0] if t_[1][0] != 'other' else t_[1][1], showterm(t_[2]), showterm(t_[3]))
+            return str(t_[0])
+        kinds = {k_ for k_, _, _ in shown}
         for key, fnn, flag in (('model', 'rsbdd::bdd::BDDEnv::model', 'model'), ('retain', 'rsbdd::bdd::BDDEnv::retain_choice_bottom_up', 'retain_choices')):
             if key not in clauses: continue
-            ps = pos.get(key, [])
-            ok = len(ps) == 1 and printers and all(ps[0] < p for p in printers) and all(ps[0] > p for p in pos.get('eval', [])) and bool(pos.get('eval'))
-            if ok:
-                s = stmts[ps[0]]; e = s['expr']
-                # if <flag> { result = f(env, result, ..) }
-                asg = [x for x in walk(e) if x['k'] == 'Assign']
-                ok = e['k'] == 'If' and len(asg) == 1 and root_var(asg[0]['lhs']) is not None and calls_in(asg[0]['rhs'], fnn) and \
-                    root_var(calls_in(asg[0]['rhs'], fnn)[0]['args'][1]) == root_var(asg[0]['lhs'])
-                cond_fields = [x.get('field_name') for x in walk(e['cond']) if x['k'] == 'Field']
-                ok = ok and flag in cond_fields
-                if ok:
-                    rv = root_var(asg[0]['lhs'])
-                    # every printer prints that variable
-                    for k2, argi in (('table', 0), ('vars', 0), ('dot', 0)):
-                        for p in pos.get(k2, []):
-                            ee = stmts[p]['expr'] if stmts[p]['k'] != 'Let' else stmts[p]['init']
-                            nm = {'table': 'rsbdd::print_truth_table_recursive', 'vars': 'rsbdd::print_true_vars_recursive', 'dot': 'rsbdd::bdd_io::BDDGraph::new'}[k2]
-                            for c in calls_in(ee, nm):
-                                if root_var(c['args'][argi]) != rv: ok = False
+            n_sites = sum(len(calls_in(t_['body'], fnn)) for t_ in binc.ithir.values())
+            ok = n_sites == 1 and kinds == {'table', 'vars', 'dot'}
+            bad = None
+            for k_, call_, term in shown:
+                if key == 'model':
+                    good = term[0] == 'ite' and term[1] == ('model', False) and term[2] == ('model', term[3]) and contains(term[3], E) and not contains(term[3], 'model')
+                else:
+                    inner = term[3] if term[0] == 'ite' and term[1] == ('model', False) and term[2] == ('model', term[3]) else term
+                    good = inner == X
+                if not good: ok = False; bad = bad or (k_, call_, term)
             R.count('X4:%s-before-printing' % key); R.obligation(ok, 'X4 ' + key)
-            if not ok: R.violation('rsbdd::main / X4 / %s before printing' % key, 'X4', 'with --%s the result must be replaced by %s(result) after evaluation and before every printer' % (flag.replace('_', '-'), fnn.split('::')[-1]))
+            if not ok:
+                R.violation('rsbdd::main / X4 / %s before printing' % key, 'X4', 'with --%s the result must be replaced by %s(result) after evaluation and before every printer%s' % (
+                    flag.replace('_', '-'), fnn.split('::')[-1], ('; the %s printer shows %s' % (bad[0], showterm(bad[2]))) if bad else '; %d call site(s), printers %s' % (n_sites, sorted(kinds))), bad[1]['loc'] if bad else None)
         if 'retain' in clauses:
-            # retain is skipped exactly when the filter is Any
-            ps = pos.get('retain', [])
-            ok = False
-            if len(ps) == 1:
-                c = strip(stmts[ps[0]]['expr']['cond'])
-                neg = False
-                while c['k'] == 'Unary' and c['op'] == 'Not': c = strip(c['arg']); neg = not neg
-                ok = neg and c['k'] == 'Call' and callee_name(c) == 'rsbdd::truth_table::TruthTableEntry::is_any'
+            # retain is skipped exactly when the filter is Any: part of the term X above; reported separately for the message
+            ok = bool(shown) and all(contains(t_, X) for _, _, t_ in shown)
             R.obligation(ok, 'X4 retain cond')
             if not ok: R.violation('rsbdd::main / X4 / retain condition', 'X4', 'retain_choice_bottom_up must be applied exactly when --retain-choices is not Any')
     # option arguments: which command-line option reaches which parameter (value provenance, independent of code layout)
@@ -825,8 +950,34 @@ def rule_X4(F, R, clauses=('parse', 'order', 'model', 'retain', 'export', 'vars'
                     arms = [a for m in walk(ct['body']) if m['k'] == 'Match' for a in m['arms']]
                     some_arms = [a for a in arms if any(x['k'] == 'Adt' and x['variant'] == 'Some' for x in walk(a['body']))]
                     ok = len(some_arms) == 1 and unwrap_pat(some_arms[0]['pat']).get('variant') == 'Var'
+        if t and not ok:
+            # the same as a loop: for token in tokens { if let Var(v) = token { if seen.insert(v) { out.push(v.clone()) } } }  -> out
+            import engine_l as _el
+            loops = _el.for_loops(t['body'])
+            if len(loops) == 1:
+                it, pat, lbody = loops[0]
+                tokvar = unwrap_pat(pat).get('var')
+                sites = _el.push_sites({'body': lbody}, lambda e: callee_name(e) == 'std::vec::Vec::push')
+                if len(sites) == 1 and root_var(it) is not None:
+                    call, conds = sites[0]
+                    var_bind = None; seen_ok = False; extra = False
+                    for (c_, pol) in conds:
+                        if c_['k'] == 'Let':
+                            pt = unwrap_pat(c_['pat'])
+                            if pol and pt['k'] == 'Variant' and pt.get('variant') == 'Var' and root_var(c_['expr']) == tokvar and pt['subs']:
+                                var_bind = unwrap_pat(pt['subs'][0]['pat']).get('var')
+                            else: extra = True
+                        else:
+                            cc = strip(c_)
+                            if pol and cc['k'] == 'Call' and (callee_name(cc) or '').split('::')[-1] == 'insert' and 'HashSet' in (callee_name(cc) or '') + cc['args'][0]['ty'].get('s', '') and root_var(cc['args'][1]) == var_bind and var_bind:
+                                seen_ok = True
+                            else: extra = True
+                    tail = t['body']
+                    while tail['k'] in ('Use', 'NeverToAny'): tail = tail['source']
+                    ret = root_var(tail['expr']) if tail['k'] == 'Block' and tail.get('expr') is not None else None
+                    ok = bool(var_bind) and seen_ok and not extra and root_var(call['args'][1]) == var_bind and ret == root_var(call['args'][0])
         R.count('X4:extract_vars'); R.obligation(ok, 'X4 extract_vars')
-        if not ok: R.violation(PF + 'extract_vars / X4 / all variables once', 'X4', 'extract_vars must return every Var token exactly once (filter_map on Var + unique)')
+        if not ok: R.violation(PF + 'extract_vars / X4 / all variables once', 'X4', 'extract_vars must return every Var token exactly once, in order of first occurrence (filter_map on Var + unique, or a loop with a seen-set)')
         t = lib.ithir.get(PF + 'new_with_env')
         ok = False
         if t:
@@ -870,8 +1021,29 @@ def rule_X5(F, R):
             if st['k'] == 'Let' and st.get('init') is not None:
                 q = unwrap_pat(st['pat']); i0 = strip(st['init'])
                 if q['k'] == 'Binding' and q.get('mutable') and i0['k'] == 'Literal' and str(i0.get('value')) == '0' and q['var'] in assigned and st['init']['ty'].get('s') in INT: ctrs.append(q['var'])
-    inserts = [x for x in walk(t['body']) if x['k'] == 'Call' and callee_name(x) == 'std::collections::HashMap::insert' and len(x['args']) == 3 and x['args'][2]['ty'].get('s') in INT]
-    tables = set(root_var(x['args'][0]) for x in inserts) - {None}
+    def is_insert(x):
+        return x['k'] == 'Call' and (callee_name(x) or '').endswith('Map::insert') and len(x['args']) == 3
+    def entry_insert(x):
+        """`table.entry(key).or_insert(v)` / `.or_insert_with(|| v)`: (table expression, 'or_insert' | 'or_insert_with', value argument)"""
+        if x['k'] != 'Call' or len(x['args']) != 2: return None
+        cn = callee_name(x) or ''
+        if cn.split('::')[-1] not in ('or_insert', 'or_insert_with') or 'Entry' not in cn: return None
+        en = strip(x['args'][0])
+        if en['k'] == 'Call' and (callee_name(en) or '').endswith('Map::entry') and en['args']: return (en['args'][0], cn.split('::')[-1], x['args'][1])
+        return None
+    def closure_of(e):
+        e = strip(e)
+        return lib.ithir.get(canon(e['def'])) if e['k'] == 'Closure' else None
+    def int_valued(x):
+        en = entry_insert(x)
+        if en is None: return False
+        if en[1] == 'or_insert': return en[2]['ty'].get('s') in INT
+        ct_ = closure_of(en[2])
+        return ct_ is not None and ct_['body']['ty'].get('s') in INT
+    inserts = [x for x in walk(t['body']) if (is_insert(x) and x['args'][2]['ty'].get('s') in INT) or int_valued(x)]
+    def table_of(x):
+        return root_var(x['args'][0]) if is_insert(x) else (root_var(entry_insert(x)[0]) if entry_insert(x) else None)
+    tables = set(table_of(x) for x in inserts) - {None}
     if len(ctrs) != 1 or len(tables) != 1:
         R.violation(fn + ' / X5 / roles', 'UNDECIDABLE', 'cannot identify the fresh-id counter (%d candidates) and the name table (%d candidates) of the tokenizer' % (len(ctrs), len(tables))); return
     CTR = ctrs[0]; TBL = tables.pop()
@@ -940,9 +1112,9 @@ def rule_X5(F, R):
                     states = run(st['expr'], states)
             if e['expr'] is not None: states = run(e['expr'], states)
             return states
-        if k in ('Assign', 'AssignOp') and e['lhs']['k'] == 'VarRef':
+        if k in ('Assign', 'AssignOp') and strip(e['lhs'])['k'] in ('VarRef', 'UpvarRef'):
             states = run(e['rhs'], states)
-            v = e['lhs']['var']
+            v = strip(e['lhs'])['var']
             nxt = []
             for (pc, env, ins) in states:
                 for (c_, r_) in ev(e['rhs'], env):
@@ -984,8 +1156,30 @@ def rule_X5(F, R):
                 out += run(a_['body'], sub)
             return out
         if k == 'Call':
+            en = entry_insert(e)
+            if en is not None and root_var(en[0]) == TBL:
+                # the entry API looks the name up itself: nothing happens for a known name, an unknown one is registered with the given value
+                if en[1] == 'or_insert':
+                    states = run(en[2], states)
+                    nxt = []
+                    for (pc, env, ins) in states:
+                        nxt.append((pc, env, ins))
+                        for (c_, v_) in ev(en[2], env): nxt.append((And(pc, c_), env, ins + [(v_, True, e['loc'])]))
+                    return nxt
+                ct_ = closure_of(en[2])
+                if ct_ is None: raise Undec('or_insert_with takes something other than a closure')
+                nxt = list(states)
+                b_ = ct_['body']
+                while b_['k'] in ('Use', 'NeverToAny'): b_ = b_['source']
+                if b_['k'] == 'Block':
+                    sub = run_block_value(b_, states)
+                else:
+                    sub = [(pc, env, ins, alt) for (pc, env, ins) in states for alt in ev(b_, env)]
+                for (pc, env, ins, (c_, v_)) in sub:
+                    nxt.append((And(pc, c_), env, ins + [(v_, True, e['loc'])]))
+                return nxt
             for arg in e['args']: states = run(arg, states)
-            if callee_name(e) == 'std::collections::HashMap::insert' and len(e['args']) == 3 and root_var(e['args'][0]) == TBL:
+            if is_insert(e) and root_var(e['args'][0]) == TBL:
                 nxt = []
                 for (pc, env, ins) in states:
                     for (c_, v_) in ev(e['args'][2], env):
@@ -996,11 +1190,25 @@ def rule_X5(F, R):
         from facts import children
         for ch in children(e): states = run(ch, states)
         return states
+    def run_block_value(b_, states):
+        """run a closure's block and return (pc, env, ins, (constraint, value)) per path: the statements, then the tail expression"""
+        marker = {'k': 'Block', 'stmts': b_['stmts'], 'expr': None}
+        out = []
+        for st0 in states:
+            # run() rebinds lets inside the block's own env, which it returns: evaluate the tail in that env
+            for (pc, env, ins) in run_keep(marker, [st0]):
+                if b_.get('expr') is None: raise Undec('closure without a value')
+                for st1 in run(b_['expr'], [(pc, env, ins)]):
+                    for alt in ev(b_['expr'], st1[1]): out.append((st1[0], st1[1], st1[2], alt))
+        return out
+    def run_keep(blk, states):
+        return run(blk, states)
     # registration steps: bodies of the innermost loops that contain an insert into the table
     steps = []
     for (it, pat, body) in __import__('engine_l').for_loops(t['body']):
-        has = [x for x in walk(body) if x in inserts or (x['k'] == 'Call' and callee_name(x) == 'std::collections::HashMap::insert' and x['args'] and root_var(x['args'][0]) == TBL)]
-        inner = any(any(y['k'] == 'Call' and callee_name(y) == 'std::collections::HashMap::insert' and y['args'] and root_var(y['args'][0]) == TBL for y in walk(b2)) for (_i, _p, b2) in __import__('engine_l').for_loops(body))
+        registers = lambda y: (is_insert(y) or entry_insert(y) is not None) and table_of(y) == TBL
+        has = [x for x in walk(body) if x['k'] == 'Call' and registers(x)]
+        inner = any(any(y['k'] == 'Call' and registers(y) for y in walk(b2)) for (_i, _p, b2) in __import__('engine_l').for_loops(body))
         if has and not inner: steps.append(body)
     n = 0
     for body in steps:
@@ -1031,8 +1239,16 @@ def rule_X5(F, R):
                     R.violation('%s / X5 / registration #%d' % (fn, n), 'X5', 'id counter invariant (the counter stays above every registered id, a fresh id is not below it, known names keep their id) not maintained: %s' % why, loc)
     # the counter has no writers outside the registration steps
     step_ids = set(id(x) for b_ in steps for x in walk(b_))
-    stray = [x for x in walk(t['body']) if x['k'] in ('Assign', 'AssignOp') and root_var(x['lhs']) == CTR and id(x) not in step_ids]
-    R.count('X5:counter-writes', len([x for x in walk(t['body']) if x['k'] in ('Assign', 'AssignOp') and root_var(x['lhs']) == CTR])); R.obligation(not stray, 'X5 writers')
+    # closures of the tokenizer: the value closure of an or_insert_with inside a step belongs to that step, any other closure does not
+    for b_ in steps:
+        for x in walk(b_):
+            en = entry_insert(x) if x['k'] == 'Call' else None
+            if en is not None and en[1] == 'or_insert_with' and closure_of(en[2]) is not None:
+                step_ids |= set(id(y) for y in walk(closure_of(en[2])['body']))
+    bodies = [t['body']] + [ct_['body'] for nm_, ct_ in sorted(lib.ithir.items()) if nm_.startswith(fn + '::{closure')]
+    writes = [x for bd in bodies for x in walk(bd) if x['k'] in ('Assign', 'AssignOp') and root_var(x['lhs']) == CTR]
+    stray = [x for x in writes if id(x) not in step_ids]
+    R.count('X5:counter-writes', len(writes)); R.obligation(not stray, 'X5 writers')
     if stray: R.violation(fn + ' / X5 / counter writers', 'X5', 'the id counter is written outside the steps that register an id', stray[0].get('loc'))
     if n < 2: R.violation(fn + ' / X5 / VACUITY', 'VACUITY', 'expected at least 2 id registrations (preloaded ordering, fresh names), found %d' % n)
 
@@ -1101,6 +1317,8 @@ def rule_X6(F, R, parts=('coverage', 'labels')):
     if tn is None or not te or not tl:
         R.violation('rsbdd::parser_io / X6 / anchor', 'UNDECIDABLE', 'parse-tree exporter functions not found'); return
     te = lib.ithir[te[0]]; tl = lib.ithir[tl[0]]
+    import facts as _facts
+    te = dict(te); te['body'] = _facts.extend_map_as_loops(te['body'], lib)          # edges.extend(xs.iter().map(|x| edge)) is a loop of pushes
     def coverage(t, is_use, what):
         cov = {}
         for m in walk(t['body']):
@@ -1331,8 +1549,9 @@ def rule_X7(F, R):
     # (c) child lists walked element by element
     te = [k for k in lib.ithir if k.endswith('GraphWalk>::edges') and 'SymbolicParseTree' in k]
     if te:
+        import facts as _facts
         t = lib.ithir[te[0]]
-        for m in walk(t['body']):
+        for m in walk(_facts.extend_map_as_loops(t['body'], lib)):
             if m['k'] == 'Match' and m.get('source') == 'ForLoopDesugar':
                 sc = strip(m['scrutinee'])
                 it = strip(sc['args'][0]) if sc['k'] == 'Call' and sc['args'] else None
